@@ -1700,6 +1700,13 @@ func (v *VMValue) AsDictKey() (string, error) {
 }
 
 func ValueEqual(a *VMValue, b *VMValue, autoConvert bool) bool {
+	return valueEqualRaw(a, b, autoConvert, nil)
+}
+
+// valueEqualRaw compares structurally; comparing records the container pairs whose
+// comparison is in progress, so that containers which contain themselves or each
+// other terminate (a pair met again is taken as equal: nothing has told them apart).
+func valueEqualRaw(a *VMValue, b *VMValue, autoConvert bool, comparing map[[2]any]bool) bool {
 	if a == b {
 		return true
 	}
@@ -1715,8 +1722,20 @@ func ValueEqual(a *VMValue, b *VMValue, autoConvert bool) bool {
 			if len(arr1.List) != len(arr2.List) {
 				return false
 			}
+			if arr1 == arr2 {
+				return true
+			}
+			pair := [2]any{arr1, arr2}
+			if comparing[pair] {
+				return true
+			}
+			if comparing == nil {
+				comparing = map[[2]any]bool{}
+			}
+			comparing[pair] = true
+			defer delete(comparing, pair)
 			for index, i := range arr1.List {
-				if !ValueEqual(i, arr2.List[index], autoConvert) {
+				if !valueEqualRaw(i, arr2.List[index], autoConvert, comparing) {
 					return false
 				}
 			}
@@ -1727,10 +1746,22 @@ func ValueEqual(a *VMValue, b *VMValue, autoConvert bool) bool {
 			if d1.Dict.Length() != d2.Dict.Length() {
 				return false
 			}
+			if d1.Dict == d2.Dict {
+				return true
+			}
+			pair := [2]any{d1.Dict, d2.Dict}
+			if comparing[pair] {
+				return true
+			}
+			if comparing == nil {
+				comparing = map[[2]any]bool{}
+			}
+			comparing[pair] = true
+			defer delete(comparing, pair)
 			isSame := true
 			d1.Dict.Range(func(key string, value *VMValue) bool {
 				other, exists := d2.Dict.Load(key)
-				isEqual := exists && ValueEqual(value, other, autoConvert)
+				isEqual := exists && valueEqualRaw(value, other, autoConvert, comparing)
 				if !isEqual {
 					isSame = false
 					return false
